@@ -1,5 +1,5 @@
 (* C15 - Context-sensitive parsing delivers the nearest context and honours configuration. *)
-From Chum Require Import Corollaries.
+From Chum Require Import Corollaries Iter.
 
 (* In the specification the context is an explicit environment: a provider replaces it for its
    sub-parser only, so a reader sees the nearest enclosing provider on the current path. *)
@@ -24,6 +24,33 @@ Theorem C15_configured_just_is_static_just :
     sem K toks spn (S n) (JustCfg ts) ctx p a = sem K toks spn (S n) (Just (val_toks (cval ctx))) ctx p a.
 Proof. exact sem_just_cfg. Qed.
 
+(* repeated().configure(..) / try_configure(.. Ok ..): the bounds in force are those the closure set from the context,
+   falling back to the static ones, and the iteration is that of the statically bounded parser *)
+Theorem C15_configured_repetition_bounds :
+  forall a lo hi ck ctx,
+    cfg_fails ck (val_count (cval ctx)) = false ->
+    mk_iter (IRepCfg a lo hi ck) ctx
+    = SCfg 0 (cfg_lo ck lo (val_count (cval ctx))) (cfg_hi ck hi (val_count (cval ctx))).
+Proof. exact configured_bounds. Qed.
+
+Theorem C15_configured_repetition_is_static :
+  forall toks spn run a lo hi ck clo chi ctx fuel c lim sacc sacce p r,
+    sdrive toks spn run fuel (IRepCfg a lo hi ck) ctx (SCfg c clo chi) lim sacc sacce p r
+    = sdrive toks spn run fuel (IRep a clo chi) ctx (SCount c) lim sacc sacce p r.
+Proof. exact configure_is_static. Qed.
+
+(* try_configure whose closure returns an error: the iteration fails at once, with that error recorded at the cursor
+   exactly as a try_map rejecting an empty match records it *)
+Theorem C15_try_configure_error_is_failure :
+  forall toks spn run a lo hi ck ctx k p r,
+    (cfg_fails ck (val_count (cval ctx)) = true -> mk_iter (IRepCfg a lo hi ck) ctx = SFail lo) /\
+    it_snext toks spn run (IRepCfg a lo hi ck) ctx (SFail k) p r
+    = match run (TryMap PFalse FId k Empty) ctx p r with
+      | Some (None, r') => Some (SErr, SFail k, r')
+      | _ => None
+      end.
+Proof. exact try_configure_failure. Qed.
+
 (* the machine threads the context exactly so, in every mode, through repetitions, choices and backtracking *)
 Theorem C15_machine_delivers_context :
   forall K toks spn n m g ctx s v s',
@@ -43,3 +70,6 @@ Print Assumptions C15_with_ctx_provides.
 Print Assumptions C15_ignore_with_ctx_passes_this_attempts_output.
 Print Assumptions C15_configured_just_is_static_just.
 Print Assumptions C15_machine_delivers_context.
+Print Assumptions C15_configured_repetition_bounds.
+Print Assumptions C15_configured_repetition_is_static.
+Print Assumptions C15_try_configure_error_is_failure.
